@@ -9,6 +9,9 @@ TRUST = ("Trusted base: Go type checker and go/ssa construction (x/tools v0.29.0
 
 # id -> (claimed?, technique, level text, not-decided / note, design ref)
 P = {
+ "C12": (True, "static analysis: loop-exit and blocking-operation rules per goroutine root, nil-safety dominance on the Close path, lock-shared flag test for connection creation",
+         "Decides once-only total Close, that every client-side library goroutine observes the node context in every loop cycle and blocks only in context-observing / derived-stream / transport-bounded operations, that enqueue answers at Close, queue construction (buffered queue not drained: known finding), nil-safety of the Close path, that a stream error fails pending calls, and that no connection is created behind Close's back. Necessary structural conditions.",
+         "Not decided: gRPC teardown time.", "DESIGN.md section 3, C12"),
  "C14": (True, "static analysis: CFG dominance + SSA provenance on the configuration constructors; lock-state for AddNode",
          "Decides for every newConfig implementation and option constructor: sorted-by-ID before every success return, de-duplication by a call-local id set, address comparison before a pooled node serves a requested address, no append/sort on operand slices, atomic test-and-insert in AddNode, non-emptiness test before success, shape of And/WithNewNodes/Except/WithoutNodes/WithNodeIDs, purity of the accessors, pooled identity of every node that reaches a result. Necessary structural conditions.",
          "Not decided: hash-collision freedom (impossible); G3 decides that a collision is reported.", "DESIGN.md section 3, C14"),
